@@ -44,6 +44,21 @@ def judge(d):
         f.append("the change log of the restored subscription ends at %s, the last change produced before shutdown was %s" % (snap.get("eoq"), d.get("max_change_id_at_stop")))
     if d.get("first_change_after_restart") != d.get("max_change_id_at_stop", 0) + 1:
         f.append("the first change after the restart has id %s, expected %s" % (d.get("first_change_after_restart"), d.get("max_change_id_at_stop", 0) + 1))
+    if d["mode"] == "restored-abrupt":
+        s2 = d.get("second_life")
+        if s2 is None:
+            if not f:
+                raise vlib.ToolError("restored-abrupt scenario did not reach its second lifetime")
+            return f
+        if (s2.get("attach_after_start") or {}).get("timeout"):
+            raise vlib.ToolError("snapshot after the second start did not arrive")
+        # the restored run was killed (files copied while it was live and had processed a change): unclean by construction
+        if s2.get("restored"):
+            f.append("a restored subscription whose second run was killed (marker at kill: %r) was restored again instead of being discarded" % s2.get("marker_at_kill"))
+        if s2.get("dir_exists_after_start"):
+            f.append("the directory of a restored subscription whose second run was killed was not removed at start")
+        if "error" not in (s2.get("attach_after_start") or {}):
+            f.append("a client could attach to a subscription whose last run was killed")
     return f
 
 
@@ -54,7 +69,7 @@ def run(tier):
     kf = any(k["id"] == "S7" for k in vlib.open_findings(PID))
     for (guard, expect_ok) in ((True, True), (False, not kf)):
         c = os.path.join(vlib.scratch(), "sl_%s.cfg" % guard)
-        open(c, "w").write("SPECIFICATION Spec\nCONSTANTS\n MaxChanges = 3\n GuardedDrop = %s\nINVARIANTS C13_CompletedIsCurrent C13_ServedIsCurrent\nPROPERTIES C13_RestoreOnlyCompleted C13_UncleanRemoved\n" % ("TRUE" if guard else "FALSE"))
+        open(c, "w").write("SPECIFICATION Spec\nCONSTANTS\n MaxChanges = 3\n GuardedDrop = %s\n RestoreMarksRunning = TRUE\nINVARIANTS C13_CompletedIsCurrent C13_ServedIsCurrent\nPROPERTIES C13_RestoreOnlyCompleted C13_UncleanRemoved\n" % ("TRUE" if guard else "FALSE"))
         r = vlib.run_tlc("SubLifecycle.tla", c, workers=4, timeout=900)
         if r.error:
             raise vlib.ToolError("TLC SubLifecycle: %s\n%s" % (r.error, r.output[-1200:]))
@@ -62,7 +77,7 @@ def run(tier):
         vlib.log("[C13] TLC SubLifecycle GuardedDrop=%s: %d distinct, violated=%s" % (guard, r.distinct, r.violated))
         if guard and r.violated:
             mismatch.append("SubLifecycle.tla violates %s even outside the region of S7" % r.violated)
-    jobs = [("graceful", 300, s) for s in range(3 if tier == "quick" else 10)] + [("abrupt", 0, s) for s in range(2 if tier == "quick" else 6)]
+    jobs = [("graceful", 300, s) for s in range(3 if tier == "quick" else 10)] + [("abrupt", 0, s) for s in range(2 if tier == "quick" else 6)] + [("restored-abrupt", 300, 50 + s) for s in range(2 if tier == "quick" else 6)]
     probes = [("graceful", 0, 100 + s) for s in range(6)] if kf else []
 
     def one(job):
@@ -93,7 +108,7 @@ def run(tier):
     cov["evaluations"] = len(res)
     cov["distinct_nontrivial"] = cov["traces_validated_against_impl"]
     cov["exhaustive"] = False
-    cov["rule"] = "model: every interleaving of the life-cycle actions with <= 3 changes, kill at any point; binding: graceful stop/restart with the last write >= 300 ms before the trip, abrupt stop by copying the data directory of a running agent"
+    cov["rule"] = "model: every interleaving of the life-cycle actions with <= 3 changes, kill at any point; binding: graceful stop/restart with the last write >= 300 ms before the trip, abrupt stop by copying the data directory of a running agent, in the first lifetime and in the lifetime after a restore"
     vlib.write_evidence(PID, tier, LEVEL, cov, time.time() - t0, violations=len(violations), assumptions=[
         "the graceful runs keep the last acknowledged write 300 ms away from the shutdown (region of known finding S7 excluded; probed with 0 ms)",
         "abrupt = files copied while the agent runs (process death), not power loss"])
